@@ -2,5 +2,6 @@ import SaoVerif.Properties.C08Footprint
 /-! C01: the write-footprint theorems of `Properties/C08Footprint.lean` that belong to this property
     (`C01_*` there) are part of this property's proof obligations: a change that breaks them breaks C01. -/
 namespace SaoVerif
-theorem C01_footprint (e : Env) (y : Sys) (op : Op) : (step e y op).2.st.params = y.st.params := C01_parameters_never_change e y op
+theorem C01_footprint (e : Env) (y : Sys) (op : Op) (hg : ∀ l, op ≠ .govfishmen l) :
+    (step e y op).2.st.params = y.st.params := C01_parameters_never_change e y op hg
 end SaoVerif
